@@ -131,3 +131,16 @@ Proof. exact bridge_pub_undef. Qed.
 Theorem C10_code_break : forall size, gcbor_encode_break (Z.of_N size) = zres (enc_byte 255 size).
 Proof. exact bridge_pub_break. Qed.
 Print Assumptions C10_code_tag.
+
+(* ---- translator tie, second wave: the float encoders as translated from this run's clang AST ---- *)
+From CB Require Import Bridge_leaf_float Bridge_leaf_ehalf.
+Theorem C10_code_half : forall val size, val < 2^32 ->
+  gcbor_encode_half (Z.of_N val) (Z.of_N size) = option_map zres (encode_half val size).
+Proof. exact bridge_encode_half. Qed.
+Theorem C10_code_single : forall v size, v < 2^32 ->
+  gcbor_encode_single (Z.of_N v) (Z.of_N size) = zres (encode_single v size).
+Proof. exact bridge_encode_single. Qed.
+Theorem C10_code_double : forall v size, v < 2^64 ->
+  gcbor_encode_double (Z.of_N v) (Z.of_N size) = zres (encode_double v size).
+Proof. exact bridge_encode_double. Qed.
+Print Assumptions C10_code_half.
